@@ -53,7 +53,9 @@ def run_manifest(tid, vendor, sizes, bound, ncvrs, rng, permute):
             if permute:
                 rng.shuffle(valid)
             rec["sample"] = valid
-            cards, sample_order, mvr_ph = V.sample_from_manifest(man, valid)
+            # sample numbers arrive as Python ints, or as signed / unsigned numpy integers
+            form = [lambda v: v, lambda v: np.array(v, dtype=np.int64), lambda v: np.array(v, dtype=np.uint64)][len(valid) % 3]
+            cards, sample_order, mvr_ph = V.sample_from_manifest(man, form(valid))
         # recover, in selection order, the card each number was mapped to
         by_order = sorted(sample_order.items(), key=lambda kv: kv[1]["selection_order"])
         rows = {}
